@@ -58,7 +58,7 @@ func (o *cmC06) expectedSigner(msg sdk.Msg) (string, string) {
 	case *mtypes.MsgCloseLease:
 		return x.LeaseID.Owner, "tenant"
 	case *mtypes.MsgCreateBid:
-		return x.Provider, "provider"
+		return cmNormAddr(x.Provider), "provider"
 	case *mtypes.MsgCloseBid:
 		return x.BidID.Provider, "provider"
 	case *mtypes.MsgWithdrawLease:
@@ -417,7 +417,7 @@ func (o *cmC06) providerScope(m *chainMachine, tx *cmTx) {
 	case *mtypes.MsgCloseBid:
 		provider, dep = x.BidID.Provider, x.BidID.DeploymentID()
 	case *mtypes.MsgCreateBid:
-		provider, dep = x.Provider, x.Order.GroupID().DeploymentID()
+		provider, dep = cmNormAddr(x.Provider), x.Order.GroupID().DeploymentID()
 	case *mtypes.MsgWithdrawLease:
 		provider, dep = x.LeaseID.Provider, x.LeaseID.DeploymentID()
 	default:
@@ -810,12 +810,8 @@ func (o *cmC16) afterTx(m *chainMachine, tx *cmTx) {
 			tolerated[c16Render(dtypes.NewEventGroupPaused(msg.BidID.GroupID()))] = true
 		}
 	}
-	// lost bids: neither required nor forbidden to announce a close
-	for _, b := range tx.post.bids {
-		if b.State == mtypes.BidLost {
-			tolerated[c16Render(mtypes.NewEventBidClosed(b.BidID, b.Price))] = true
-		}
-	}
+	// a bid that LOST is not a bid that was closed: the statement forbids a closed event for an
+	// object that did not change in that way (and the chain never closes a lost bid later)
 	if changed >= 2 {
 		switch tx.msg.(type) {
 		case *dtypes.MsgCreateDeployment:
